@@ -40,23 +40,29 @@ class Fault(Exception):
     pass
 
 
-GLOBAL_OPS = {'gf': 'function', '+++': 'prefix', '---': 'postfix', 'hi': 'infix'}
+NESTED = {'d': 0}      # depth of `execute_self` re-entries: nested handler invocations are not logged or counted
+
+
+GLOBAL_OPS = {'gf': 'function', '+++': 'prefix', '---': 'postfix', 'hi': 'infix', 'becomes': 'infix'}
+BECOMES_PREC = 20
 HI_PREC = 115
 
 
 def infix_table_with_hi():
     t = dict(rf.BUILTIN_INFIX)
     t['hi'] = (HI_PREC, 'LEFT', 'CALC')
+    t['becomes'] = (BECOMES_PREC, 'RIGHT', 'SETTER')       # a user-registered assignment-type operator
     return t
 
 
-def run_template(it, px, toks, vars_, funcs, fault_at=0, fault_kind='err', reenter=None, use_globals=False, followup=None, const_ret=None):
+def run_template(it, px, toks, vars_, funcs, fault_at=0, fault_kind='err', reenter=None, use_globals=False, followup=None, const_ret=None, repeat=0):
     """vars_: {name: Value}; funcs: {name: Value returned by the context function};
     fault_at: the k-th handler invocation (all kinds, 1-based) fails with fault_kind (0: none);
     reenter(it, ctx_cell, name): action performed inside every handler before it returns;
     use_globals: also register global handlers gf (function), +++ (prefix), --- (postfix), hi (infix).
     Returns dict(model outcome, oracle outcome, logs, ctx, env)."""
     text = ' '.join(toks)
+    NESTED['d'] = 0
     log_m = []
     cnt_m = {'n': 0}
     box = {}
@@ -65,9 +71,11 @@ def run_template(it, px, toks, vars_, funcs, fault_at=0, fault_kind='err', reent
         def h(it_, args):
             if vec_args and len(args) == 1 and isinstance(args[0], Arr):
                 args = list(args[0].items)
-            log_m.append(name)
-            cnt_m['n'] += 1
-            if fault_at and cnt_m['n'] == fault_at:
+            nested = NESTED['d'] > 0
+            if not nested:
+                log_m.append(name)
+                cnt_m['n'] += 1
+            if not nested and fault_at and cnt_m['n'] == fault_at:
                 if fault_kind == 'panic':
                     raise Unwind('verif-handler-panic ' + name, it_.where())
                 return Err(param_invalid(it_))
@@ -85,12 +93,21 @@ def run_template(it, px, toks, vars_, funcs, fault_at=0, fault_kind='err', reent
         it.call('register_postfix_op', [mkstr('---'), ArcV(Cell(model_handler('---', first), 'h'))])
         it.call('register_infix_op', [mkstr('hi'), HI_PREC, Enum('InfixOpType', 0, 'CALC'), Enum('InfixOpAssociativity', 0, 'LEFT'),
                                       ArcV(Cell(model_handler('hi', first), 'h'))])
+        it.call('register_infix_op', [mkstr('becomes'), BECOMES_PREC, Enum('InfixOpType', 1, 'SETTER'), Enum('InfixOpAssociativity', 1, 'RIGHT'),
+                                      ArcV(Cell(model_handler('becomes', first), 'h'))])
         infix = infix_table_with_hi()
         prefix = tuple(prefix) + ('+++',)
         postfix = tuple(postfix) + ('---',)
     ctx = api.new_context(it, binds)
     box['c'] = ctx
     got = api.execute(it, text, ctx)
+    log_first = list(log_m)
+    # the same evaluation again `repeat` times on the same context and thread (the injected fault recurs each time):
+    # only the state it leaves behind matters (leaked counters, locks), observed by the follow-up
+    for _ in range(repeat):
+        cnt_m['n'] = 0
+        api.execute(it, text, ctx)
+    del log_m[len(log_first):]
     follow = None
     if followup is not None:
         follow = followup(it, ctx)
@@ -120,6 +137,7 @@ def run_template(it, px, toks, vars_, funcs, fault_at=0, fault_kind='err', reent
         evaluator.prefix_extra['+++'] = ref_handler('+++', first, True)
         evaluator.postfix_extra['---'] = ref_handler('---', first, True)
         evaluator.infix_handlers['hi'] = ref_handler('hi', first, True)
+        evaluator.infix_handlers['becomes'] = ref_handler('becomes', first, True)
     j = rf.ref_parse(toks, infix, prefix=prefix, postfix=postfix)
     want_kind, want = None, None
     try:
